@@ -42,6 +42,7 @@ func runC13(c *Ctx) {
 	c13UntrustedNames(c)
 	c13ValidateBeforeSkip(c)
 	c13ViewWrapsArgument(c)
+	c13PathPrefixByString(c)
 	c13DiskJoin(c)
 	c13ValidatorCovers(c)
 	c13ConstructorValidates(c)
